@@ -2,6 +2,7 @@ import H2.Proofs.ServerExt
 import H2.Proofs.Frame
 import H2.Props.C06
 import H2.Props.C16
+import H2.Proofs.HpackEnc
 /-!
 # C18 — SETTINGS are acknowledged in order and the peer's limits are obeyed (server role)
 
@@ -75,16 +76,101 @@ theorem advertised_frame_size_enforced (b : Bytes) (h9 : 9 ≤ b.length) (hl : b
     readFrame Gen.c_defaultDataFrameSize b = .err .tooLarge 9 :=
   (C16.too_large_rejected Gen.c_defaultDataFrameSize b (by decide) h9 hl).1
 
+theorem setMax_maxSize (e : Hpack.EncState) (n : Nat) : (e.setMax n).maxSize = n := by
+  simp only [Hpack.EncState.setMax]; split <;> simp_all
+
+theorem foldl_setMax_maxSize (vs : List Nat) (e : Hpack.EncState) :
+    (vs.foldl Hpack.EncState.setMax e).maxSize = vs.getLast?.getD e.maxSize := by
+  induction vs generalizing e with
+  | nil => rfl
+  | cons v vs ih =>
+    rw [List.foldl_cons, ih, setMax_maxSize]
+    cases vs with
+    | nil => rfl
+    | cons a t => simp [List.getLast?_cons_cons, List.getLast?_eq_some_getLast (List.cons_ne_nil a t)]
+
 /-- **The peer's SETTINGS_HEADER_TABLE_SIZE persists and bounds the encoder**: the stream loop, which owns the
-encoder, sets its table limit to the value a SETTINGS frame announces and leaves it alone when the frame does not
+encoder, leaves its table limit at the last value a SETTINGS frame announces and leaves it alone when the frame does not
 mention it — an unrelated SETTINGS frame no longer brings the default back (finding F52), and the resize no longer
 happens on the read loop in the middle of a header block (finding F34). -/
 theorem encoder_limit_is_peers (r : R) (st : SettingsVal) :
-    (applyTableSize r st).s.enc.maxSize = (if st.hasTableSize then st.tableSize else r.s.enc.maxSize) := by
-  have hset : ∀ (e : Hpack.EncState) (n : Nat), (e.setMax n).maxSize = n := by
-    intro e n; simp only [Hpack.EncState.setMax]; split <;> simp_all
-  simp only [applyTableSize]
-  split <;> simp_all
+    (applyTableSize r st).s.enc.maxSize = (tableSizes st).getLast?.getD r.s.enc.maxSize := by
+  simp only [applyTableSize, foldl_setMax_maxSize]
+
+/-- a frame without SETTINGS_HEADER_TABLE_SIZE leaves the encoder as it is -/
+theorem encoder_untouched (r : R) (st : SettingsVal) (h : tableSizes st = []) : (applyTableSize r st).s.enc = r.s.enc := by
+  simp [applyTableSize, h]
+
+/-- "an announcement is owed that names a size of at most `m`": what `SetMaxTableSize` leaves behind for the next header
+block, which then opens with dynamic table size updates — the smallest size first (`C04.size_updates_announced`) -/
+def Owes (e : Hpack.EncState) (m : Nat) : Prop := e.pending = true ∧ e.minPending ≤ m ∧ e.minPending ≤ e.maxSize
+
+theorem owes_mono {e : Hpack.EncState} {m m' : Nat} (h : Owes e m) (hm : m ≤ m') : Owes e m' :=
+  ⟨h.1, Nat.le_trans h.2.1 hm, h.2.2⟩
+
+theorem owes_setMax {e : Hpack.EncState} {m : Nat} (h : Owes e m) (n : Nat) : Owes (e.setMax n) m := by
+  obtain ⟨h1, h2, h3⟩ := h
+  simp only [Hpack.EncState.setMax, Owes]
+  split
+  · exact ⟨h1, h2, h3⟩
+  · simp only [h1, Bool.not_true, Bool.false_or, decide_eq_true_eq]
+    refine ⟨trivial, ?_, ?_⟩ <;> split <;> omega
+
+theorem owes_foldl {e : Hpack.EncState} {m : Nat} (h : Owes e m) (vs : List Nat) :
+    Owes (vs.foldl Hpack.EncState.setMax e) m := by
+  induction vs generalizing e with
+  | nil => exact h
+  | cons v vs ih => exact ih (owes_setMax h v)
+
+theorem owes_of_lower (e : Hpack.EncState) (v : Nat) (h : v < e.maxSize) : Owes (e.setMax v) v := by
+  have hne : ¬ e.maxSize = v := by omega
+  simp only [Hpack.EncState.setMax, hne, if_false, Owes]
+  refine ⟨trivial, ?_, ?_⟩ <;> split <;> first | exact Nat.le_refl _ | (rename_i hc; simp at hc; omega)
+
+theorem dip_owed (vs : List Nat) (e : Hpack.EncState) (v : Nat) (hv : v ∈ vs) (hlt : v < e.maxSize) :
+    Owes (vs.foldl Hpack.EncState.setMax e) v := by
+  induction vs generalizing e with
+  | nil => cases hv
+  | cons n vs ih =>
+    rw [List.foldl_cons]
+    rcases List.mem_cons.mp hv with rfl | hv'
+    · exact owes_foldl (owes_of_lower e v hlt) vs
+    · by_cases hlt' : v < (e.setMax n).maxSize
+      · exact ih _ hv' hlt'
+      · rw [setMax_maxSize] at hlt'
+        exact owes_foldl (owes_mono (owes_of_lower e n (by omega)) (by omega)) vs
+
+/-- **Every dip is announced** (server twin of F09c, repaired): if a SETTINGS frame names, anywhere among its values, a
+SETTINGS_HEADER_TABLE_SIZE below the encoder's table limit, the encoder is left owing the peer an announcement of at most
+that size — whatever the last value of the frame is ("0, then 4096" included, which used to reach the encoder as 4096
+alone and change nothing) — and its limit is the frame's last value. -/
+theorem dip_announced (r : R) (st : SettingsVal) (v : Nat) (hv : v ∈ tableSizes st) (hlt : v < r.s.enc.maxSize) :
+    Owes (applyTableSize r st).s.enc v ∧
+    (applyTableSize r st).s.enc.maxSize = (tableSizes st).getLast?.getD r.s.enc.maxSize :=
+  ⟨dip_owed _ _ v hv hlt, encoder_limit_is_peers r st⟩
+
+open H2.Hpack in
+/-- what is owed is paid at the start of the next header block: `AppendHeader` opens it with a dynamic table size update
+that names at most `m` (followed by the final size when that is larger), before the first field -/
+theorem owed_block_opens (e : Hpack.EncState) (m : Nat) (h : Owes e m) (f : Hpack.Field) (store : Bool) :
+    ∃ k rest, k ≤ m ∧ encPre e = .sizeUpdate k :: rest ∧
+      (Enc.append e f store).2 = serAll (encPre e) ++ Spec.ser (encRepr e f store) := by
+  obtain ⟨h1, h2, h3⟩ := h
+  by_cases hc : e.minPending < e.maxSize
+  · exact ⟨e.minPending, [.sizeUpdate e.maxSize], h2, by simp [encPre, h1, hc], append_out _ _ _⟩
+  · exact ⟨e.maxSize, [], by omega, by simp [encPre, h1, hc], append_out _ _ _⟩
+
+/-- the values are those of the frame, in wire order: identifier 1 of `Spec.pairsOf` -/
+theorem tableSizes_of_payload (p : Bytes) (s' : SettingsVal) (ack : Bool)
+    (h : settingsRead p { ack := ack } = .inl (some s')) :
+    tableSizes s' = ((Spec.pairsOf p).filter fun q => q.1 == Gen.c_HeaderTableSize).map (·.2) := by
+  rw [settingsRead_spec] at h
+  cases hb : Spec.firstBad (Spec.pairsOf p) with
+  | some c => rw [hb] at h; cases h
+  | none =>
+    rw [hb] at h
+    injection h with h; injection h with h; subst h
+    simp [tableSizes, withPairs]
 
 /-- the read loop no longer touches the encoder -/
 theorem read_loop_leaves_encoder (r : R) (st : SettingsVal) : (handleSettings r st).s.enc = r.s.enc := by
@@ -116,7 +202,29 @@ theorem table_size_flag (p : Bytes) (s s' : SettingsVal) (h : settingsRead p s =
   `responseHeaders` emits a single `.headers` output whose length is the block length, so a HEADERS frame can
   exceed the peer's SETTINGS_MAX_FRAME_SIZE. -/
 
+/-! ### the server twin of F09c: "0, then 4096" in one SETTINGS frame, now a regression example -/
+
+/-- the encoder holds `:status 201` from an earlier response; the frame's two values empty its table and leave the
+announcement "0, then 4096" owed … -/
+theorem F09s_regression :
+    let r : R := { s := { enc := { dyn := [([58, 115, 116, 97, 116, 117, 115], [50, 48, 49])] } } }
+    let e := (applyTableSize r { pairs := [(Gen.c_HeaderTableSize, 0), (Gen.c_HeaderTableSize, 4096)] }).s.enc
+    (e.dyn, e.pending, e.minPending, e.maxSize) = ([], true, 0, 4096) := by decide +kernel
+
+/-- … where the code before the repair, told of the last value only, changed nothing and went on indexing -/
+example : let e : Hpack.EncState := { dyn := [([58, 115, 116, 97, 116, 117, 115], [50, 48, 49])] }
+    e.setMax 4096 = e := by decide
+
+/-- the peer that sent the frame has emptied its table (`peerAnnounce`, srv.go `noteSettings`) and cannot read the index
+62 the unrepaired encoder sent next (`be`) -/
+example :
+    let d : Hpack.DecState := { dyn := [([58, 115, 116, 97, 116, 117, 115], [50, 48, 49])] }
+    let d' := [0, 4096].foldl peerAnnounce d
+    (d'.dyn, d'.maxSize, d'.limit) = ([], 0, 4096) ∧ decodeAll 2 d' true 0 [0xbe] [] = none := by decide +kernel
+
 /-! non-vacuity -/
+example : ∃ (r : R) (st : SettingsVal) (v : Nat), v ∈ tableSizes st ∧ v < r.s.enc.maxSize :=
+  ⟨{ s := {} }, { pairs := [(Gen.c_HeaderTableSize, 0), (Gen.c_HeaderTableSize, 4096)] }, 0, by decide, by decide⟩
 example : acksOwed { s := {} } ⟨4, 0, 0, 0, .settings {}⟩ = 1 := by decide
 example : Spec.firstBad (Spec.pairsOf [0, 2, 0, 0, 0, 2]) = some 1 := by decide
 
